@@ -257,8 +257,13 @@ class DatasetIteration(DatasetBase):
         if self.dataset_structure.shard_file_type != "tfrec":
             output_signature = {
                 attribute.name:
-                    tf.TensorSpec(shape=attribute.shape, dtype=attribute.dtype)
-                for attribute in self.dataset_structure.saved_data_description
+                    tf.TensorSpec(
+                        shape=attribute.shape,
+                        # Variable size attributes are TensorFlow strings.
+                        dtype=(tf.string if attribute.dtype in ("str", "bytes")
+                               else attribute.dtype),
+                    ) for attribute in
+                self.dataset_structure.saved_data_description
             }
             tf_dataset = tf.data.Dataset.from_generator(
                 lambda: self.as_numpy_iterator_concurrent(
